@@ -3,7 +3,7 @@
 //  h_asm cases <in> <out>              fork-per-case: assemble `src`, report image/listing/diagnostic
 //  h_asm c04 <level> <mnemonic> <spelling> <lo> <hi> <stride> <out.json>
 //        level    = text | dir
-//        spelling = u (unsigned decimal) | s (signed decimal: -n for negative values) | m (-n for every value, n = -v mod 2^32)
+//        spelling = u (unsigned decimal) | s (signed decimal: -n for negative values) | m (-n for every value, n = -v mod 2^32) | z, y (as u and m with one to four leading zeros)
 //        assembles every value v = lo, lo+stride, ... < hi (as 32-bit patterns) in batches
 //        and decode-walks the emitted image with the ISA's own prefix rule.
 #include <cstdio>
@@ -101,6 +101,9 @@ const hexasm::Token MTOK[12] = {hexasm::Token::LDAM, hexasm::Token::LDBM, hexasm
 std::string spell(uint32_t v, char spelling) {
   if (spelling == 's' && (int32_t)v < 0) return "-" + std::to_string((uint64_t)0x100000000ull - v);
   if (spelling == 'm') return "-" + std::to_string(((uint64_t)0x100000000ull - v) & 0xFFFFFFFFull);   // every value as -n, n < 2^32
+  // the same two written forms with one to four leading zeros (still decimal literals: 0100 is one hundred)
+  if (spelling == 'z') return std::string(1 + ((v * 2654435761u) >> 30), '0') + std::to_string(v);
+  if (spelling == 'y') return "-" + std::string(1 + ((v * 2654435761u) >> 30), '0') + std::to_string(((uint64_t)0x100000000ull - v) & 0xFFFFFFFFull);
   return std::to_string(v);
 }
 
